@@ -64,7 +64,7 @@ def f_shape():
 
 
 # --------------------------------------------------------------------- F-rand
-def rand_dag(rng, n_in=None, n_gates=None, max_arity=5, consts=None, types=GATES, name="rnd"):
+def rand_dag(rng, n_in=None, n_gates=None, max_arity=5, consts=None, types=GATES, name="rnd", feedthrough=True, wide=True):
     n_in = n_in or rng.randint(1, 4)
     n_gates = n_gates or rng.randint(2, 12)
     consts = rng.random() < 0.3 if consts is None else consts
@@ -83,8 +83,10 @@ def rand_dag(rng, n_in=None, n_gates=None, max_arity=5, consts=None, types=GATES
         else:
             k = rng.choice([1, 2, 2, 2, 3, 3, 4, 5][: max(1, 3 + max_arity)])
             k = min(k, max_arity, len(pool))
+            if wide and max_arity >= 5 and len(pool) >= 7 and rng.random() < 0.06:
+                k = rng.randint(6, min(8, len(pool)))  # an occasional wide gate
         # bias to recent nodes so depth grows
-        cand = pool[-6:] if rng.random() < 0.6 and len(pool) > 6 else pool
+        cand = pool[-6:] if rng.random() < 0.6 and len(pool) > 6 and k <= 5 else pool
         k = min(k, len(cand))
         fi = rng.sample(cand, k)
         used.update(fi)
@@ -95,6 +97,10 @@ def rand_dag(rng, n_in=None, n_gates=None, max_arity=5, consts=None, types=GATES
             g[3] = True
     # constants that ended up unused are dropped (keeps lint-clean incl. readers that drop them)
     nodes = [n for n in nodes if n[1] == "input" or n[0] in used]
+    if feedthrough and rng.random() < 0.2:
+        # a primary input that is also marked as an output (feed-through port)
+        k = rng.randrange(n_in)
+        nodes[k] = (nodes[k][0], "input", [], True)
     return mkspec(name, nodes + [tuple(g) for g in gates])
 
 
@@ -259,6 +265,46 @@ def f_bb_dotted():
     nodes = [("a", "input", []), ("b", "input", []), ("qd", "buf", []), ("o", "and", ["qd", "a"], True),
              ("r0.data.d", "bb_input", ["a"]), ("r0.en", "bb_input", ["b"]), ("r0.data.q", "bb_output", [])]
     return [(("bb", "dotted_pins"), mkspec("dotted_pins", nodes, edges=[("r0.data.q", "qd")], bbs={"r0": BOXD}))]
+
+
+def f_rand_bb(seed, count):
+    """random DAGs with 1..3 blackbox instances (ff / box) spliced in: pins fed by random nets or constants or left unconnected,
+    outputs driving fresh buffers that feed later logic"""
+    out = []
+    for i in range(count):
+        rng = random.Random(f"cgv-bb-{seed}-{i}")
+        s = rand_dag(rng, n_in=rng.randint(2, 4), n_gates=rng.randint(3, 9), max_arity=4, consts=rng.random() < 0.4, name=f"rbb{i}")
+        nodes = [tuple(n) + ((),) if False else n for n in s["nodes"]]
+        names = [n[0] for n in s["nodes"]]
+        gates = [n[0] for n in s["nodes"] if n[1] not in ("input", "0", "1")]
+        bbs = {}
+        extra_nodes, extra_edges = [], []
+        for j in range(rng.randint(1, 3)):
+            bb = rng.choice([FF, BOX])
+            inst = f"u{j}"
+            bbs[inst] = bb
+            for p_ in bb[1]:
+                drv = rng.choice(names) if rng.random() < 0.8 else None
+                extra_nodes.append([f"{inst}.{p_}", "bb_input", False])
+                if drv:
+                    extra_edges.append([drv, f"{inst}.{p_}"])
+            for p_ in bb[2]:
+                extra_nodes.append([f"{inst}.{p_}", "bb_output", False])
+                if rng.random() < 0.8:
+                    w = f"{inst}_{p_}_net"
+                    extra_nodes.append([w, "buf", rng.random() < 0.3])
+                    extra_edges.append([f"{inst}.{p_}", w])
+                    # feed a multi-input gate later in the list (keeps the graph acyclic: the buffer has no other fan-in)
+                    tgt = [g for g in gates if dict((n[0], n[1]) for n in s["nodes"])[g] in GATES2]
+                    if tgt and rng.random() < 0.8:
+                        extra_edges.append([w, rng.choice(tgt)])
+                    else:
+                        extra_nodes[-1][2] = True
+        spec = {"name": s["name"], "nodes": [list(n) for n in s["nodes"]] + extra_nodes, "edges": [list(e) for e in s["edges"]] + extra_edges, "bbs": bbs}
+        from cgv.net import Net
+        if Net.from_spec(spec).is_acyclic():
+            out.append((("randbb", seed, i), spec))
+    return out
 
 
 def seq_circuits():
